@@ -89,6 +89,11 @@ def strip_hints(n):
     return n
 
 
+def whole(r):
+    """1.0 and 1 spell the same number: how a whole number is held is not part of what a literal spells"""
+    return r[:-2] if r.endswith('.0') else r
+
+
 def run_variants(lib, ast, env, texts, kind, must, want=None):
     vs = []
     for t in texts:
@@ -97,11 +102,11 @@ def run_variants(lib, ast, env, texts, kind, must, want=None):
         o['text'] = t
         if want is not None:     # the raw result as Python prints it (for the exactness of literals)
             r = lib.Parser().parse(t)
-            o['repr'] = repr(r['result']) if r['error'] is None else 'error ' + str(r['error'])
+            o['repr'] = whole(repr(r['result'])) if r['error'] is None else 'error ' + str(r['error'])
         vs.append(o)
     out = {'kind': kind, 'ast': strip_hints(ast), 'env': env, 'must': must, 'vars': vs, 'in': texts}
     if want is not None:
-        out['want'] = want
+        out['want'] = whole(want)
     return out
 
 
